@@ -448,3 +448,99 @@ def rule_infix_chain(ctx: Ctx, rule: str = "constant-arithmetic") -> None:
 
                     _run(ctx, rule, fi.key, construct, thunk)
     ctx.floor("operator chains checked", n, 8)
+
+
+# ---------------------------------------------------------------------------
+# The number token (C09: "regardless of how a number is spelled")
+# ---------------------------------------------------------------------------
+_NUMBER_REFERENCE = r"(?:[0-9]+(?:\.[0-9]*)?|\.[0-9]+)(?:[eE][+-]?[0-9]+)?"
+
+
+def _pp_to_regex(e: ast.AST) -> str:
+    """Regular expression of a pyparsing element built from the constructs the number token uses; raises
+    AnalysisError for anything else."""
+    import re as _re
+
+    if isinstance(e, ast.Constant) and isinstance(e.value, str):
+        return _re.escape(e.value)
+    if isinstance(e, ast.BinOp) and isinstance(e.op, ast.Add):
+        return _pp_to_regex(e.left) + _pp_to_regex(e.right)
+    if isinstance(e, ast.BinOp) and isinstance(e.op, (ast.BitOr, ast.BitXor)):
+        return "(?:%s|%s)" % (_pp_to_regex(e.left), _pp_to_regex(e.right))
+    if isinstance(e, ast.Call):
+        f = norm(e.func).split(".")[-1]
+        a = e.args
+        if f == "Combine" and len(a) >= 1:
+            return _pp_to_regex(a[0])
+        if f in ("Or", "MatchFirst") and len(a) == 1 and isinstance(a[0], (ast.List, ast.Tuple)):
+            return "(?:%s)" % "|".join(_pp_to_regex(x) for x in a[0].elts)
+        if f in ("Optional", "Opt") and len(a) == 1:
+            return "(?:%s)?" % _pp_to_regex(a[0])
+        if f == "Word" and len(a) == 1 and norm(a[0]).endswith("nums"):
+            return "[0-9]+"
+        if f == "Literal" and len(a) == 1 and isinstance(a[0], ast.Constant):
+            return _re.escape(a[0].value)
+        if f == "CaselessLiteral" and len(a) == 1 and isinstance(a[0], ast.Constant) and len(a[0].value) == 1:
+            c = a[0].value
+            return "[%s%s]" % (_re.escape(c.lower()), _re.escape(c.upper()))
+        if f in ("oneOf", "one_of") and len(a) >= 1 and isinstance(a[0], ast.Constant):
+            return "(?:%s)" % "|".join(_re.escape(x) for x in a[0].value.split())
+        if f == "Regex" and len(a) >= 1 and isinstance(a[0], ast.Constant) and isinstance(a[0].value, str):
+            return "(?:%s)" % a[0].value
+    raise AnalysisError("number token uses a construct outside the known fragment: %s" % norm(e)[:60])
+
+
+def rule_number_token(ctx: Ctx, rule: str = "number-token") -> None:
+    """C09: the token that reads a number accepts the same prefix of every candidate spelling as the documented
+    number syntax (digits with optional fraction, or a leading dot, each with an optional exponent) - decided by
+    turning the token's definition into a regular expression and comparing it with the reference on every string
+    over the alphabet {1 . e E + -} up to length 7 (longest-prefix semantics, as the parser uses the token)."""
+    import itertools
+    import re as _re
+
+    prog = ctx.prog
+    mod = next((m for m in prog.modules.values() if m.relpath.endswith("syntax/grammar.py")), None)
+    construct = "floating_point_number reads exactly the documented number spellings"
+    if mod is None or "floating_point_number" not in mod.assigns:
+        ctx.cannot_decide(rule, "grammar.floating_point_number", construct, "anchor vanished")
+        return
+    e = mod.assigns["floating_point_number"]
+    action = None
+    # strip .set_parse_action(...) / .set_name(...) / .setName(...) wrappers
+    while isinstance(e, ast.Call) and isinstance(e.func, ast.Attribute) and e.func.attr in ("set_parse_action", "setParseAction", "set_name", "setName", "add_parse_action"):
+        if e.func.attr in ("set_parse_action", "setParseAction", "add_parse_action") and e.args:
+            action = e.args[0]
+        e = e.func.value
+    try:
+        rx = _re.compile(_pp_to_regex(e))
+    except (AnalysisError, _re.error) as ex:
+        ctx.cannot_decide(rule, "grammar.floating_point_number", construct, str(ex))
+        return
+    ref = _re.compile(_NUMBER_REFERENCE)
+    bad = None
+    n = 0
+    for k in range(1, 8):
+        for tup in itertools.product("1.eE+-", repeat=k):
+            s = "".join(tup)
+            n += 1
+            a, b = rx.match(s), ref.match(s)
+            ea, eb = (a.end() if a else None), (b.end() if b else None)
+            if ea != eb:
+                bad = (s, s[:ea] if ea else None, s[:eb] if eb else None)
+                break
+        if bad:
+            break
+    where = "%s:%d" % (mod.relpath, mod.assign_nodes["floating_point_number"].lineno)
+    if bad:
+        ctx.violation(rule, "grammar.floating_point_number", construct, "in %r the token reads %r where the number is %r (what is left over is then parsed as something else, e.g. a variable)" % bad, where=where)
+    else:
+        ctx.ok(rule, "grammar.floating_point_number", construct + " (%d strings compared)" % n)
+    # the token's value is float(text)
+    construct = "floating_point_number yields float(<matched text>)"
+    okc = isinstance(action, ast.Lambda) and norm(action.body).replace(" ", "") in ("float(t[0])", "float(tokens[0])", "float(toks[0])")
+    if action is None:
+        ctx.cannot_decide(rule, "grammar.floating_point_number", construct, "no parse action found")
+    elif okc or (isinstance(action, ast.Lambda) and isinstance(action.body, ast.Call) and norm(action.body.func) == "float" and len(action.body.args) == 1 and isinstance(action.body.args[0], ast.Subscript) and norm(action.body.args[0].slice) == "0"):
+        ctx.ok(rule, "grammar.floating_point_number", construct)
+    else:
+        ctx.cannot_decide(rule, "grammar.floating_point_number", construct, "parse action is %s" % norm(action)[:60])
